@@ -150,6 +150,7 @@ func TestC07Histories(t *testing.T) {
 			st.NonTrivial(vstat.Hash(cs.String()))
 			st.Label("session_with_inside_or_racing_close")
 		}
+		st.LabelN("dup_sockets_checked_not_polled_after_close", int64(s.PolledChecks))
 		st.LabelN("canaries_placed", int64(len(s.Canaries)))
 		st.LabelN("canaries_on_just_released_number", int64(s.CanaryHits))
 		if dupListener {
